@@ -11,7 +11,7 @@ import vlib
 # (oracle) and which are *model/implementation correspondence* for each property
 ORACLE = {
     "C01": ["refusal", "rt", "trail", "reload", "counts", "propsback"],
-    "C02": ["rt", "trail", "wf"],
+    "C02": ["rt", "trail", "wf", "reload"],
     "C04": ["refusal", "status", "rt", "trail", "reload", "counts", "offsets", "offpad", "propsback"],
     "C05": ["offsets", "offpad", "pos", "trail", "propsback", "ef", "dcf", "exits"],
     "C06": ["depth", "chunkrefs", "wf"],
